@@ -129,7 +129,7 @@ def scenario_concurrent_clients(k, cmd_a, cmd_b, sched):
     fn.impl_only = True
     return fn
 
-def scenario_versions(k, script):
+def scenario_versions(k, script, label="version-marker"):
     """fixed sequences around the version markers a client may write: -2 ('in conflict'), -1 (unversioned), exact and stale versions"""
     def fn(net, rng):
         if not setup(net, k, rng): return [Failure("cluster-does-not-form", f"{k} nodes")]
@@ -137,7 +137,7 @@ def scenario_versions(k, script):
         for node, cmd in script:
             hist.append((node, cmd)); net.cmd(node, 1, cmd)
             if net.quiesce(rng, 300) is None: return [Failure("no-quiescence", f"after {cmd}")]
-            fs = diverged(net, k, hist, f"{cmd.split(' ')[0]}-version-marker@{'primary' if node == 1 else 'secondary'}", tainted)
+            fs = diverged(net, k, hist, f"{cmd.split(' ')[0]}-{label}@{'primary' if node == 1 else 'secondary'}", tainted)
             found += fs
             if [f for f in fs if f.cls != "version-differs:echo-of-own-write"]: return found
         return found
@@ -148,6 +148,17 @@ VERSION_SCRIPTS = [
     [(1, "set-safe a -2 first"), (1, "set-safe a -2 again"), (1, "remove a"), (1, "set a back")],
     [(1, "set a 1"), (1, "set-safe a -1 plain"), (1, "set-safe a 5 jump"), (1, "set-safe a -2 marked"), (1, "increment a 1")],
     [(1, "increment n 4"), (1, "set-safe n -2 9"), (1, "increment n 1"), (1, "set-safe n 0 1")],
+]
+
+# the text format of replication: fields a client can put into a key or value that the printed line must carry unchanged
+# (statement terminators, separators, blanks, digits where a version is expected, empty values)
+WIRE_SCRIPTS = [
+    [(1, "set a; 1"), (1, "set a 2"), (1, "remove a; ")],
+    [(1, "set k v;\n;"), (1, "get k")],
+    [(1, "set k  two  blanks "), (1, "set n 5"), (1, "set m -3 x"), (1, "set e")],
+    [(1, "set a|b 1"), (1, "set a,b 2"), (1, "remove a|b"), (1, "increment c; 2"), (1, "increment c; ")],
+    [(2, "set a; 1"), (2, "remove a; "), (2, "set k v;\n;")],
+    [(1, "set-safe q; 0 x;"), (1, "set-safe q; 1 7 y"), (1, "remove q;")],
 ]
 
 def key_of(cmd):
@@ -169,6 +180,7 @@ def scenarios(tier):
         S.append((f"k{k}-secondary-only", scenario(k, 6, False, single_node=2)))
         S.append((f"k{k}-snapshot-timing", scenario_snapshot_timing(k)))
         for vi, sc in enumerate(VERSION_SCRIPTS): S.append((f"k{k}-version-markers-{vi}", scenario_versions(k, sc)))
+        for vi, sc in enumerate(WIRE_SCRIPTS): S.append((f"k{k}-wire-format-{vi}", scenario_versions(k, sc, "wire-format")))
     # two concurrent clients on the primary (the quantifier's second case), lock-level schedules
     import random
     r = random.Random(17)
